@@ -66,12 +66,23 @@ def run(chk, replay=None):
         two = rng.random() < 0.4 and w2 != w1
         # assign frequencies to sources
         lines, llines, srcs = [], [], []
+        tdom = set()
         for ml, ll in zip(case['lines'], case['lcapy']):
             tk = ml.split()
             if tk[0][0] in 'VI' and 'ac' in tk:
                 w = w2 if (two and rng.random() < 0.5) else w1
                 srcs.append((tk[0], w))
                 ll = ' '.join(ll.split()[:-1] + [gen_netlist.fs(w)])
+                if rng.random() < 0.35:
+                    # the same source written as a time-domain expression with a cos AND a sin term of one frequency
+                    # (model: the phasor a - j b as the source amplitude)
+                    a = Fraction(rng.randint(-6, 6), rng.randint(1, 3))
+                    b = Fraction(rng.randint(1, 6), rng.randint(1, 3)) * rng.choice([1, -1])
+                    ll = '%s %s %s {(%s)*cos((%s)*t) + (%s)*sin((%s)*t)}' % (tk[0], tk[1], tk[2], a, w, b, w)
+                    tk2 = ml.split()
+                    tk2[tk2.index('ac') + 1] = '%s,%s' % (fstr(a), fstr(-b))
+                    ml = ' '.join(tk2)
+                    tdom.add(tk[0])
             lines.append(ml)
             llines.append(ll)
         freqs = sorted({w for (_, w) in srcs})
@@ -151,12 +162,20 @@ def run(chk, replay=None):
                 disagreements.append({'netlist': llines, 'omega': fstr(w), 'diffs': [str(d) for d in diffs[:3]]})
             # (b) transfer function on the jw axis: Laplace-domain analysis with s-domain sources
             l2 = []
+            amp = {}
+            for ml in lines:
+                tk = ml.split()
+                if tk[0] in dict(srcs) and 'ac' in tk:
+                    amp[tk[0]] = tk[tk.index('ac') + 1]
             for ll in llines:
                 tk = ll.split()
-                if tk[0][0] in 'VI' and 'ac' in tk:
+                if tk[0] in dict(srcs):
                     if dict(srcs)[tk[0]] == w:
-                        amp = tk[tk.index('ac') + 1]
-                        l2.append('%s %s %s s %s' % (tk[0], tk[1], tk[2], amp if amp.startswith('{') else '{%s}' % amp))
+                        a_ = amp[tk[0]].strip('{}')
+                        if ',' in a_:
+                            re_, im_ = a_.split(',')
+                            a_ = '(%s) + (%s)*j' % (re_, im_)
+                        l2.append('%s %s %s s {%s}' % (tk[0], tk[1], tk[2], a_))
                     else:
                         l2.append('%s %s %s' % ('W' if tk[0][0] == 'V' else 'O', tk[1], tk[2]))
                 else:
@@ -211,6 +230,62 @@ def run(chk, replay=None):
         chk.case((tuple(llines),), nontriv)
         if nontriv:
             chk.sample({'netlist': llines, 'frequencies': [fstr(w) for w in freqs]})
+
+    # (d') sums of several same-frequency terms, including ones whose cosine parts cancel and
+    #      phase-shifted forms with rational cos/sin (3-4-5 angle), symbolic amplitudes substituted afterwards
+    A_, B_ = S.symbols('A_ B_', real=True)
+    phi = S.atan(S.Rational(4, 3))          # cos = 3/5, sin = 4/5
+    for k in range(nconv // 2):
+        w = Fraction(rng.randint(1, 9), rng.randint(1, 3))
+        W = S.Rational(w.numerator, w.denominator)
+        a = Fraction(rng.randint(1, 9), rng.randint(1, 4)) * rng.choice([1, -1])
+        b = Fraction(rng.randint(1, 9), rng.randint(1, 4)) * rng.choice([1, -1])
+        A, B = S.Rational(a.numerator, a.denominator), S.Rational(b.numerator, b.denominator)
+        form = k % 5
+        ts = tt.sympy
+        if form == 0:     # two sines with symbolic amplitudes (cosine parts cancel identically)
+            e_sym = A_ * S.sin(W * ts) + B_ * S.sin(W * ts)
+            want = (Fraction(0), -(a + b))
+        elif form == 1:   # cos(wt+phi) - cos(wt-phi) = -2 sin(phi) sin(wt)
+            e_sym = A_ * S.cos(W * ts + phi) - A_ * S.cos(W * ts - phi)
+            want = (Fraction(0), Fraction(8, 5) * a)
+        elif form == 2:   # cos(wt+phi) + cos(wt-phi) = 2 cos(phi) cos(wt)
+            e_sym = A_ * S.cos(W * ts + phi) + A_ * S.cos(W * ts - phi)
+            want = (Fraction(6, 5) * a, Fraction(0))
+        elif form == 3:   # cos + sin with symbolic amplitudes
+            e_sym = A_ * S.cos(W * ts) + B_ * S.sin(W * ts)
+            want = (a, -b)
+        else:             # three terms
+            e_sym = A_ * S.cos(W * ts) + B_ * S.sin(W * ts) + A_ * S.sin(W * ts + phi)
+            want = (a + Fraction(4, 5) * a, -b - Fraction(3, 5) * a)
+        chk.case(('conv-sum', form, a, b, w), True)
+        chk.count('conversion', 'sum-form-%d' % form)
+        try:
+            with common.time_limit(30):
+                p = lcapy.voltage(lcapy.expr(e_sym)).phasor()
+                val = p.sympy.subs({A_: A, B_: B})
+                g = common.gauss_rational(S.expand_complex(S.simplify(val)))
+                if g is None:
+                    g = common.gauss_rational(S.nsimplify(S.expand_complex(val.rewrite(S.cos))))
+                back = p.time().sympy.subs({A_: A, B_: B})
+                d = S.simplify(S.expand_trig(back - e_sym.subs({A_: A, B_: B})))
+        except (Exception, common.TimeLimit) as ex:   # noqa
+            chk.count('lcapy-error', 'conv-sum:' + type(ex).__name__)
+            continue
+        mp = drv.ask1('ph.toPhasor %s %s' % (fstr(want[0]), fstr(-want[1]))).split()
+        wantm = (Fraction(mp[0]), Fraction(mp[1]))
+        chk.coverage['correspondence']['compared'] += 1
+        if g is not None and g != wantm:
+            n_cex += 1
+            chk.counterexample({'kind': 'sinusoid-to-phasor', 'form': 'sum'},
+                               {'input': {'expression': str(e_sym), 'A_': fstr(a), 'B_': fstr(b)}, 'lcapy': gtok(g), 'model': gtok(wantm),
+                                'spec': 'sum of same-frequency sinusoids <-> sum of their phasors (a cos + b sin <-> a - j b)'},
+                               'phasor of a same-frequency sum is wrong')
+        if d != 0:
+            n_cex += 1
+            chk.counterexample({'kind': 'phasor-roundtrip', 'form': 'sum'},
+                               {'input': {'expression': str(e_sym), 'A_': fstr(a), 'B_': fstr(b)}, 'lcapy': str(back), 'spec': 'sinusoid -> phasor -> sinusoid is the identity'},
+                               'phasor round trip changes a same-frequency sum')
 
     # (d) conversions
     for k in range(nconv):
